@@ -25,6 +25,8 @@ racef sname=<k> [srm=<mask>] [suo] tname=<m> [trm=<mask>] [tuo] order=<12|21>
 hold name=<k>                                          -> ok            (the consumer of k stops receiving)
 stallw w=<upd|add|del> rname=<k> … (the write's keys)  -> k=[…] || val=… err=… | k1=[…]   (Collection: the write waits for the held k)
 resume name=<k>                                        -> k=[…]         (it receives again: what its forwarder was holding)
+waste [hist=<id:area,…>] val=<id:area> [later=<id:area,…>] [rm=<id|area>] [uo]
+                                                       -> stream=[…]    (stateless: wastepb PullWasteRecords, Waste.lean)
 ```
 While a subscription is held its forwarder takes ONE change off the bus and blocks handing it on; the
 next `vset` that announces a change finds it stalled: `Bus.Send` (`Stall.lean`, `sendDl`) gives up at
